@@ -174,7 +174,7 @@ def check(case):
 
 
 PARTS = [
-    Part("single-faults", check=check, strategy=lambda: dp.cases(build, size=700), n={"quick": 1600, "thorough": 40000}, max_discard=0.1),
+    Part("single-faults", check=check, strategy=lambda: dp.cases(build, size=700), n={"quick": 1600, "thorough": 24000}, max_discard=0.1),
 ]
 
 MANIFEST = {
